@@ -1,6 +1,8 @@
 import Tmv.Lemmas.BlockSync
 import Tmv.Lemmas.BlockSyncHandover
 import Tmv.Model.BlockSyncV2
+import Tmv.Model.BlockSyncV1
+import Tmv.Model.BlockSyncV2Sched
 import Tmv.Lemmas.BlockSyncWF
 import Tmv.Lemmas.BlockSyncPend
 /-! # C13 — Block sync applies only the canonical chain, whatever peers send
@@ -352,6 +354,121 @@ theorem v2_saved_is_canonical (st0 : St) (es : List V2.Ev) :
       · exact v2_handle_inv sigOK st0 p e hd' h
       · rw [hd'] at hdead; cases hdead
 
+/-! ### blockchain/v1 reactor (FSM + processBlock) -/
+
+/-- what v1 maintains: the store is a justified chain ending in the reactor's state, or the
+reactor has panicked in `ApplyBlock` right after saving a block that has the quorum but fails
+`validateBlock` (v1, like v2, saves before it validates) -/
+def V1Inv (st0 : St) (n : V1.Node) : Prop :=
+  StoreOK sigOK st0 n.store n.st ∨
+    (n.fsm.dead = true ∧ ∃ b c rest, n.store = (b, c) :: rest ∧ StoreOK sigOK st0 rest n.st ∧
+      Quorum sigOK n.st.vals b.id b.height c ∧ validate sigOK n.st b ≠ .ok ())
+
+theorem v1_process_inv (st0 : St) (n : V1.Node) (h : StoreOK sigOK st0 n.store n.st) :
+    V1Inv sigOK st0 (n.processOnce sigOK).1 := by
+  unfold V1.Node.processOnce
+  split; · exact Or.inl h
+  cases h1 : n.fsm.pool.blockAt n.fsm.pool.height with
+  | none => exact Or.inl h
+  | some f1 =>
+    cases h2 : n.fsm.pool.blockAt (n.fsm.pool.height + 1) with
+    | none => exact Or.inl h
+    | some f2 =>
+      obtain ⟨first, p1⟩ := f1
+      obtain ⟨second, p2⟩ := f2
+      simp only
+      cases hv : verifyCommitLight sigOK n.st.vals first.id first.height second.lastCommit with
+      | error e => exact Or.inl h
+      | ok u =>
+        have hq := verifyCommitLight_quorum sigOK n.st.vals first.id first.height second.lastCommit
+          (by cases u; exact hv)
+        simp only
+        cases hval : validate sigOK n.st first with
+        | error e =>
+          refine Or.inr ⟨rfl, _, _, _, rfl, h, hq, ?_⟩
+          rw [hval]; simp
+        | ok u2 => exact Or.inl (StoreOK.cons h hq (by cases u2; exact hval))
+
+/-- **saved_is_canonical for blockchain/v1.** Whatever events reach the FSM (status and block
+responses from any peers, removals, timeouts, request batches with any assignment of peers) and
+whenever the processing loop runs: every stored block came with a commit carrying valid
+signatures of more than 2/3 of the validator set the reactor's state prescribed for its height,
+for exactly its id; every EXECUTED block passed `validateBlock`. The only stored-but-not-validated
+block is the last one of a reactor that has panicked on it (`v1_saves_before_validating`). -/
+theorem v1_saved_is_canonical (st0 : St) (ops : List V1.Op) :
+    V1Inv sigOK st0 ((V1.Node.new st0).run sigOK ops) := by
+  suffices ∀ (n : V1.Node), V1Inv sigOK st0 n → V1Inv sigOK st0 (n.run sigOK ops) from
+    this (V1.Node.new st0) (Or.inl (by simpa [V1.Node.new] using StoreOK.nil))
+  induction ops with
+  | nil => intro n h; exact h
+  | cons op rest ih =>
+    intro n h
+    simp only [V1.Node.run, List.foldl_cons]
+    apply ih
+    cases op with
+    | ev e =>
+      simp only [V1.Node.apply, V1.Node.event]
+      split
+      · exact h
+      · rename_i hd
+        rcases h with h | ⟨hdead, hrest⟩
+        · exact Or.inl h
+        · exact absurd hdead hd
+    | process =>
+      simp only [V1.Node.apply]
+      rcases h with h | ⟨hdead, hrest⟩
+      · exact v1_process_inv sigOK st0 n h
+      · unfold V1.Node.processOnce
+        simp only [hdead, if_true]
+        exact Or.inr ⟨hdead, hrest⟩
+
+/-! ### blockchain/v2 scheduler -/
+
+/-- `removePeer` leaves no request assigned to the peer: everything it had pending or delivered is
+no longer pending/received (those heights are New again, to be scheduled elsewhere, unless no
+Ready peer reaches them any more), and a known peer ends up Removed -/
+theorem sched_removePeer_clears (s : V2S.Sched) (id : Nat) (q : V2S.Peer)
+    (hq : s.peer? id = some q) (hr : q.state ≠ .removed) :
+    (∀ e ∈ (s.removePeer id).pending, e.2.1 ≠ id) ∧ (∀ e ∈ (s.removePeer id).received, e.2 ≠ id) := by
+  unfold V2S.Sched.removePeer
+  simp only [hq, hr, if_false]
+  constructor
+  · intro e he
+    simp only [V2S.Sched.setPeer] at he
+    have : e ∈ List.filter (fun x => decide (x.2.1 ≠ id))
+        ((List.foldl (fun acc h => acc.setState h V2S.BState.new) s
+          ((s.pending.filter (·.2.1 = id)).map (·.1) ++ (s.received.filter (·.2 = id)).map (·.1))).pending) := he
+    simpa using (List.mem_filter.mp this).2
+  · intro e he
+    simp only [V2S.Sched.setPeer] at he
+    have : e ∈ List.filter (fun x => decide (x.2 ≠ id))
+        ((List.foldl (fun acc h => acc.setState h V2S.BState.new) s
+          ((s.pending.filter (·.2.1 = id)).map (·.1) ++ (s.received.filter (·.2 = id)).map (·.1))).received) := he
+    simpa using (List.mem_filter.mp this).2
+
+/-- v2 scheduler run of the known findings: honest peer 1 and liar 2 serve heights 1..3, the
+processor reports a verification failure naming both -/
+def schedWitness : List V2S.Ev :=
+  [.addNewPeer 1, .statusResponse 1 1 3, .addNewPeer 2, .statusResponse 2 1 3,
+   .trySchedule (-900), .trySchedule (-899)]
+
+/-- both are Removed, nothing is pending, and the scheduler says FINISHED (known finding
+`v2.scheduler.finished-when-no-ready-peer-remains`) -/
+theorem sched_finishes_without_ready_peer :
+    (((V2S.Sched.new 1).run schedWitness).handle (.processError 1 2)).2 = .finished ∧
+    (((V2S.Sched.new 1).run schedWitness).handle (.processError 1 2)).1.pending = [] := by decide
+
+/-- the honest peer reconnects and reports again: it stays Removed and nothing can be scheduled
+(known finding `v2.scheduler.removed-peer-never-readmitted`) -/
+theorem sched_removed_peer_never_readmitted :
+    let s := (((V2S.Sched.new 1).run schedWitness).handle (.processError 1 2)).1.run
+      [.addNewPeer 1, .statusResponse 1 1 3]
+    (s.peer? 1).map (·.state) = some .removed ∧ (s.handle (.trySchedule (-800))).2 = .noOp ∧
+      s.height = 1 := by decide
+
+/-- non-vacuity: without the failure the two requests went to peers 1 and 2 -/
+example : ((V2S.Sched.new 1).run schedWitness).pending = [(1, 1, -900), (2, 2, -899)] := by decide
+
 /-! ### hand-over -/
 
 /-- the newest stored block is the state's last block and its seen commit has the quorum of the
@@ -500,6 +617,45 @@ example :
     ((V2.Pc.new witnessSt).run witnessSigOK
       [.blockReceived 5 (some witnessB1), .blockReceived 5 (some (witnessB2 ⟨.absent, 0, 0, 0⟩)),
        .processBlock]).st.lastHeight = 1 := by decide
+
+/-! v1 witnesses (validators of power 7 and 3, one peer `5` serving heights 1..3) -/
+
+def v1Tries : Int → Nat := fun _ => 5
+def v1Serve (b1 b2 : Block) : List V1.Op :=
+  [.ev .start, .ev (.statusResponse 5 1 3), .ev (.makeRequests 64 v1Tries),
+   .ev (.blockResponse 5 b1), .ev (.blockResponse 5 b2), .process]
+
+/-- v1 saves before it validates (known finding `v1.saved.block-fails-validation`) -/
+theorem v1_saves_before_validating :
+    ((V1.Node.new witnessSt).run witnessSigOK
+        (v1Serve { witnessB1 with flawed := true } (witnessB2 ⟨.absent, 0, 0, 0⟩))).fsm.dead = true ∧
+    ((V1.Node.new witnessSt).run witnessSigOK
+        (v1Serve { witnessB1 with flawed := true } (witnessB2 ⟨.absent, 0, 0, 0⟩))).store.length = 1 ∧
+    ((V1.Node.new witnessSt).run witnessSigOK
+        (v1Serve { witnessB1 with flawed := true } (witnessB2 ⟨.absent, 0, 0, 0⟩))).st = witnessSt := by
+  decide
+
+/-- non-vacuity: the honest pair is processed and the pool moves on -/
+example : ((V1.Node.new witnessSt).run witnessSigOK
+    (v1Serve witnessB1 (witnessB2 ⟨.absent, 0, 0, 0⟩))).fsm.pool.height = 2 := by decide
+
+/-- when the last peer is removed `nextRequestHeight` falls to 1, below the pool's height (known
+finding `v1.pool.nextRequestHeight-falls-below-pool-height`) -/
+theorem v1_next_request_height_reset :
+    let n := (V1.Node.new witnessSt).run witnessSigOK
+      (v1Serve witnessB1 (witnessB2 ⟨.absent, 0, 0, 0⟩) ++ [.ev (.peerRemove 5)])
+    n.fsm.pool.height = 2 ∧ n.fsm.pool.nextRequestHeight = 1 ∧ n.fsm.state = .waitForPeer := by
+  decide
+
+/-- a failed verification whose two peers were the only ones makes the FSM finish and switch to
+consensus with nothing synced (known finding
+`v1.fsm.switches-to-consensus-when-failed-verification-removes-last-peers`) -/
+theorem v1_finishes_after_failed_verification :
+    let bad : Block := { witnessB2 ⟨.absent, 0, 0, 0⟩ with
+      lastCommit := ⟨1, 0, ⟨7, 7⟩, [⟨.commit, 1, 0, 1⟩, ⟨.absent, 0, 0, 0⟩]⟩ }
+    let n := (V1.Node.new witnessSt).run witnessSigOK (v1Serve witnessB1 bad)
+    n.fsm.state = .finished ∧ n.fsm.switched = true ∧ n.store = [] ∧ n.fsm.peerErrors = [5, 5] := by
+  decide
 
 def witnessSt10 : St := { witnessSt with initialHeight := 10 }
 def witnessB10 : Block := { witnessB1 with height := 10 }
